@@ -1,4 +1,6 @@
 """C28 — hy.repr: quoting / cycle state is restored on every exit of hy-repr."""
+CANON = True
+
 import re
 
 REL = "hy/core/hy_repr.hy"
